@@ -44,7 +44,8 @@ def main():
             det = {}
             for chk in checks:
                 try:
-                    r = run(["./check", chk], cwd=ROOT, env=dict(os.environ, ANYIO_REPO=str(scratch), VERIF_SEED="0"),
+                    r = run(["./check", chk], cwd=ROOT, env=dict(os.environ, ANYIO_REPO=str(scratch),
+                                     VERIF_SEED=os.environ.get("SEED_MATRIX_SEED", "0")),
                             timeout=1500)
                 except subprocess.TimeoutExpired:
                     det[chk] = "TIMEOUT (no verdict)"
@@ -64,7 +65,8 @@ def main():
                                  "how": "tools/seed_matrix.py: scratch copy of /repo/src + patch; demo on both; "
                                         "./check <id> --tier quick, VERIF_SEED=0, ANYIO_REPO=scratch"}
             meta["detected_by"] = det
-            (d / "meta.json").write_text(json.dumps(meta, indent=1))
+            if not os.environ.get("SEED_MATRIX_NOWRITE"):
+                (d / "meta.json").write_text(json.dumps(meta, indent=1))
             rows.append((d.name, f"{c0}/{c1}", "; ".join(f"{k}: {v}" for k, v in det.items()),
                          meta.get("summary", "")[:110]))
         finally:
@@ -83,7 +85,8 @@ def main():
     for r in rows:
         old[r[0]] = f"| {r[0]} | {r[1]} | {r[2]} | {r[3]} |"
     out += [old[k] for k in sorted(old)]
-    f.write_text("\n".join(out) + "\n")
+    if not os.environ.get("SEED_MATRIX_NOWRITE"):
+        f.write_text("\n".join(out) + "\n")
     print("\n".join(old[r[0]] for r in rows))
 
 
